@@ -1,11 +1,11 @@
 import QuillModel.Backend.LiftRingPot
 /-!
-# The ring potential (part 2): one processed event, and `Closed InvR`
+# The ring potential (part 2): one processed event, and `Closed InvRg`
 
 `processEvent` keeps `writes + ring potential ≤ grants`: an ordinary statement is dispatched (its grant is spent on
 writes), a backtrace statement is stored (its grant becomes ring occupancy — `Ring.store` adds at most one copy and may
 drop others), `init_backtrace` only drops, a replay converts occupancy into writes and clears the ring
-(`replayRing_pot`). Every other step of the machine is a frame for `InvR`.
+(`replayRing_pot`). Every other step of the machine is a frame for `InvRg`.
 -/
 namespace Backend.PA
 open Backend Spsc
@@ -183,7 +183,7 @@ theorem processEvent_r {s : BSt} (hc : s.cfg.replayCatchesPerEvent = true) (h : 
     omega
   · exact ⟨by show bwcount s.log sid id + ringPot s sid id ≤ _; omega, h⟩
 
-theorem InvR.pop {s : BSt} (h : InvR s) (i : Nat) (st : Stmt) (rest : List Stmt) : InvR (popStep s i st rest) := by
+theorem InvRg.pop {s : BSt} (h : InvRg s) (i : Nat) (st : Stmt) (rest : List Stmt) : InvRg (popStep s i st rest) := by
   unfold popStep
   dsimp only
   have hc := processEvent_core s st
@@ -191,7 +191,7 @@ theorem InvR.pop {s : BSt} (h : InvR s) (i : Nat) (st : Stmt) (rest : List Stmt)
   have key : ∀ s2 : BSt, s2.cfg = s.cfg → RingLg s2 → (∀ sid id, bwcount s2.log sid id + ringPot s2 sid id ≤
         bwcount s.log sid id + ringPot s sid id + (if logq id st = true then (s.lgOf st.lg).sinks.count sid else 0)) →
       s2.popLog = s.popLog → (∀ j, (s2.lgOf j).sinks = (s.lgOf j).sinks) →
-      InvR { s2.setTh i (fun t => { t with buf := rest, popped := t.popped ++ [st] }) with popLog := st :: s2.popLog } := by
+      InvRg { s2.setTh i (fun t => { t with buf := rest, popped := t.popped ++ [st] }) with popLog := st :: s2.popLog } := by
     intro s2 hcf hR hw hp hl
     refine ⟨by show s2.cfg.replayCatchesPerEvent = true; rw [hcf]; exact h.rc, fun j r hr => hR j r hr, fun sid id => ?_⟩
     show bwcount s2.log sid id + ringPot s2 sid id ≤
@@ -215,7 +215,7 @@ theorem InvR.pop {s : BSt} (h : InvR s) (i : Nat) (st : Stmt) (rest : List Stmt)
     exact (hpe sid id).1
   · exact key _ hc.cfg (hpe 0 0).2 (fun sid id => (hpe sid id).1) hc.popLog hlgs
 
-theorem InvR.closed : Closed InvR where
+theorem InvRg.closed : Closed InvRg where
   frame := fun _ _ h f => h.frame f
   refresh := fun s h => by
     unfold refreshCache; split
